@@ -99,7 +99,7 @@ def plan():
     P["C01"] = [c14_scalar, snd_decision(False, ("quick", "thorough")), snd_decision(True, ("thorough",)),
                 snd_offer(0b011, ("quick", "thorough")), snd_offer(0b111, ("thorough",))] + \
         [rcv("C01", "P_C01", m, own=True, ledger=False, tiers=("quick", "thorough") if m in (0b001, 0b110) else ("thorough",)) for m in MASKS3] + \
-        [snd_full(0b000), snd_full(0b011)]
+        [snd_full(0b000), snd_full(0b001)]
     # ---------------- C02 (ledger invariants I3, I4)
     P["C02"] = [rcv("C02", "P_C02", m, own=False, ledger=True, vmax=6, tiers=("quick", "thorough") if m in (0b001, 0b011) else ("thorough",)) for m in MASKS3] + \
         [snd_content(0b011, ("quick", "thorough")), snd_content(0b111, ("thorough",)), snd_decision(False, ("quick", "thorough"))] + \
@@ -144,10 +144,10 @@ def plan():
          (0b0110, 4, 0, 3), (0b0110, 2, 1, 3), (0b0011, 0, 0, 2), (0b1010, 1, 3, 5), (0b0101, 1, 2, 0)]
     P["C06"] = [c06(m, op, k, r, ("quick", "thorough")) for (m, op, k, r) in q]
     seen = set(q)
-    for m in (0b0000, 0b0110, 0b0111, 0b1011, 0b1110):
+    for m in (0b0000, 0b0110, 0b1011):
         for op in range(5):
             for k in ((0, 1, 2, 3) if op < 4 else (0,)):
-                for r in ((0, 2 + (k % 4)) if m != 0b0111 else (0, 1, 2 + (k % 4))):
+                for r in ((0,) if m != 0b0110 else (0, 1)):
                     if (m, op, k, r) not in seen and not (m == 0b1111 and op == 4):
                         seen.add((m, op, k, r))
                         P["C06"].append(c06(m, op, k, r, ("thorough",)))
@@ -204,7 +204,7 @@ def plan():
     P["C07"] = [ser_ub(3, 5, 3, 8, 3, ("quick", "thorough")), ser_ub(6, 7, 1, 8, 2, ("quick", "thorough")), ser_ub(8, 8, 8, 8, 3, ("quick", "thorough")), snd_content(0b011, ("quick", "thorough")),
                 snd_decision(False, ("quick", "thorough")), ser_ub(1, 1, 1, 8, 3, ("thorough",)), ser_ub(7, 2, 8, 8, 3, ("thorough",)), ser_ub(16, 3, 14, 16, 3, ("thorough",)), ser_ub(5, 12, 16, 16, 3, ("thorough",)),
                 snd_content(0b111, ("thorough",)), snd_content(0b001, ("thorough",)), snd_content(0b101, ("thorough",)), snd_decision(True, ("thorough",)),
-                snd_full(0b000), snd_full(0b001), snd_full(0b011)]
+                snd_full(0b000), snd_full(0b001)]
     # ---------------- C09
     def c09(mask, n, tiers):
         return H(f"c09_{m3(mask)}_{n}", f"c09_hostile_delta({mask}, {n}, 7)", tiers=tiers, covers=["reset taken", "incremental"] if n else ["reset taken"], funcs=F_APPLY, cuts=[CUT_LISTENER],
